@@ -479,7 +479,7 @@ func cmpNum(v reflect.Value, arg Val) (int, bool) {
 // schemas) on a destination value.
 func EvalFunc(id string, v reflect.Value) bool {
 	switch id {
-	case "pass":
+	case "pass", "normalize":
 		return true
 	case "fail":
 		return false
@@ -495,6 +495,23 @@ func EvalFunc(id string, v reflect.Value) bool {
 		return v.Int() >= 0
 	}
 	panic("model: unknown predicate " + id)
+}
+
+// ApplyCustomNorm is what a "normalize" custom function does to the value it is given a pointer to (it then accepts it).
+func ApplyCustomNorm(v reflect.Value) {
+	if !v.CanSet() {
+		return
+	}
+	switch v.Kind() {
+	case reflect.String:
+		v.SetString(strings.ToLower(strings.TrimSpace(v.String())) + "~")
+	case reflect.Int:
+		if x := v.Int(); x < 0 && x > -(1<<40) {
+			v.SetInt(-x)
+		} else if x < 1<<40 {
+			v.SetInt(x + 2)
+		}
+	}
 }
 
 // DefaultCode is the issue code the documentation assigns to a built-in test.
